@@ -241,6 +241,11 @@ def slice_(t, lo, w):
         return mk('sextbits', (t.args[0],), w)
     if op == 'undef':
         return undef(w, t.args[0])
+    if op == 'shl' and lo == 0:
+        # low bits of a left shift depend only on the low bits of the shifted value
+        return mk('shl', (slice_(t.args[0], 0, w), t.args[1]), w)
+    if op == 'lshr' and lo + w == t.w:
+        return mk('lshr', (slice_(t.args[0], lo, w), t.args[1]), w)
     if op in ('add', 'sub', 'mul') and lo > 0:
         # SWAR forms produced for ABI-coerced narrow vectors: no carry/borrow can enter bit `lo` when the
         # low `lo` bits of one operand are zero; a product of operands with k low zero bits is a shifted product
@@ -473,6 +478,27 @@ def icmp(pred, a, b):
         a, b = b, a
     if a is b:
         return TRUE if pred in ('eq', 'ule', 'sle') else FALSE
+    # carry out of an addition done in double width:  2^w <= zext(p)+zext(q)   ==   (p+q) mod 2^w < p
+    if pred in ('ule', 'ult') and a.op == 'const' and b.op == 'add':
+        r = _carry_pattern(pred, a, b)
+        if r is not None:
+            return r
+    # (x & (x-1)) == 0   ==   popcount(x) < 2
+    if pred in ('eq', 'ne'):
+        z, y = (a, b) if a.op == 'const' else (b, a)
+        if z.op == 'const' and z.args[0] == 0 and y.op == 'and':
+            for i in (0, 1):
+                x, m = y.args[i], y.args[1 - i]
+                if m.op == 'add' and any(k.op == 'const' and k.args[0] == (1 << k.w) - 1 for k in m.args) and x in m.args:
+                    r = mk('icmp', ('ult', mk('ctpop', (x,), x.w), const(x.w, 2)), 1)
+                    return r if pred == 'eq' else not_(r)
+    if pred in ('eq', 'ne') and a.w > 1:
+        # zext(bool) compared with 0 / 1
+        x, y = (a, b) if b.op == 'const' else (b, a)
+        if y.op == 'const' and y.args[0] in (0, 1) and x.op == 'concat' and len(x.args) == 2 and x.args[0].w == 1 \
+                and x.args[1].op == 'const' and x.args[1].args[0] == 0:
+            truth = (y.args[0] == 1) == (pred == 'eq')
+            return x.args[0] if truth else not_(x.args[0])
     if a.w == 1 and pred in ('eq', 'ne'):
         # icmp on booleans
         x, y = (a, b) if b.op == 'const' else (b, a)
@@ -480,6 +506,27 @@ def icmp(pred, a, b):
             truth = (y.args[0] == 1) == (pred == 'eq')
             return x if truth else not_(x)
     return mk('icmp', (pred, a, b), 1)
+
+
+def carry(p, q):
+    """canonical carry-out of p+q (same width)"""
+    if q.id < p.id:
+        p, q = q, p
+    return mk('icmp', ('ult', arith('add', p, q), p), 1)
+
+
+def _carry_pattern(pred, c, s):
+    x, y = s.args
+    if x.op != 'concat' or y.op != 'concat' or len(x.args) != 2 or len(y.args) != 2:
+        return None
+    p, zp = x.args
+    q, zq = y.args
+    if not (zp.op == 'const' and zp.args[0] == 0 and zq.op == 'const' and zq.args[0] == 0 and p.w == q.w):
+        return None
+    w = p.w
+    if (pred == 'ule' and c.args[0] == (1 << w)) or (pred == 'ult' and c.args[0] == (1 << w) - 1):
+        return carry(p, q)
+    return None
 
 
 def select(c, a, b):
@@ -502,6 +549,27 @@ def select(c, a, b):
             return and_(c, a) if b.args[0] == 0 else or_(not_(c), a)
         if a.op == 'const':
             return or_(c, b) if a.args[0] == 1 else and_(not_(c), b)
+    if (a.op == 'concat' or b.op == 'concat') and a.w <= 128:
+        sa, sb = _align(a, b)
+        if len(sa) > 1 and any(x is y for x, y in zip(sa, sb)):
+            return concat([select(c, x, y) for x, y in zip(sa, sb)])
+    if a.op == 'const' and b.op == 'const' and a.w <= 64:
+        # per-bit: equal bits are constants, differing bits are c or !c  (so select(c,1,0):8 == zext(c))
+        x, y = a.args[0], b.args[0]
+        nc = None
+        out = []
+        for i in range(a.w):
+            p, q = (x >> i) & 1, (y >> i) & 1
+            if p == q:
+                out.append(const(1, p))
+            elif p:
+                out.append(c)
+            else:
+                if nc is None:
+                    nc = not_(c)
+                out.append(nc)
+        if (x ^ y) & ((x ^ y) - 1) == 0 or a.w <= 8:
+            return concat(out)
     # select(c, select(c, x, y), z) -> select(c, x, z)
     if a.op == 'select' and a.args[0] is c:
         a = a.args[1]
@@ -735,3 +803,24 @@ def substitute(t, mapping, memo=None):
         else:
             memo[x] = make(x.op, na, x.w)
     return memo[t]
+
+
+def diff(a, b, depth=0, path=''):
+    """first place where two terms differ structurally: (path, sub-term a, sub-term b)"""
+    if a is b:
+        return None
+    if not isinstance(a, T) or not isinstance(b, T):
+        return (path, a, b)
+    if a.op != b.op or a.w != b.w or len(a.args) != len(b.args):
+        return (path, a, b)
+    ds = []
+    for i, (x, y) in enumerate(zip(a.args, b.args)):
+        if isinstance(x, T) or isinstance(y, T):
+            d = diff(x, y, depth + 1, path + '/%s.%d' % (a.op, i))
+            if d:
+                ds.append(d)
+        elif x != y:
+            return (path, a, b)
+    if ds:
+        return ds[0]
+    return (path, a, b)
